@@ -7,7 +7,12 @@
 //
 //	reset [next=<n>]                      fresh requester; optionally presets the id allocator (wrap tests)
 //	req s=<act>                           one top-level issue; <act> is a script item (below)
-//	noroute cb=<0|1>                      node-level app.Request whose route finds no target (= req s=X / req s=x)
+//	noroute cb=<0|1> [route=<str>]        node-level app.Request whose route finds no target (= req s=X / req s=x); `route` (may be
+//	                                      empty) overrides the route string: well-formed with an unknown service type, or malformed
+//	                                      (not exactly serviceType.registry.method), or @query / @kick (app.QuerySession / app.Kick for an
+//	                                      unknown front service) — every one of them must end in ErrorNoService
+//	burst n=<k> s=<act>                   k top-level issues of the same script item by ONE piece of handler code (1 <= k <= 300):
+//	                                      a whole batch outstanding at once, expiring in the same scan (64, 128, ... entries)
 //	preq s=<act>                          request / notify to a peer that is a real service with an API dispatcher (apimapper): its
 //	                                      handler park.Park keeps the completion callback; `deliver` completes it later, in any
 //	                                      order, with other requests dispatched in between (asynchronous API handlers)
@@ -30,6 +35,13 @@
 //	                                      already removed before each of them — the legitimate nondeterminism,
 //	                                      fed to the model as its choice
 //
+//	stop                                  the requester actor is stopped (ActorSystem.Root.Stop: Stopping, Stopped, the pid leaves the
+//	                                      registry).  Service.Receive has no case for those messages (its `case *actor.Stop` never
+//	                                      matches: Stop is a system message the actor context consumes), so the run-service goroutine and
+//	                                      the expiry timer live on: replies are dead letters from now on, every pending request is
+//	                                      still completed — by the timeout —, and timeout callbacks / posted code can still issue
+//	                                      requests (which can only time out)
+//
 //	crowd n=<k> w=<v>                     k fresh services spawned from ONE props (one scheDisp / run-service goroutine), each with
 //	                                      one request outstanding; the shared goroutine is parked inside a posted closure while
 //	                                      k foreign goroutines deliver one reply each (more than the dispatcher's 9-slot queue
@@ -40,7 +52,8 @@
 //
 //	F request+callback whose message cannot be serialised | f same, nil callback | n notify, not serialisable
 //	X node-level app.Request whose route finds no target, with callback (completed at once with ErrorNoService) |
-//	x same, nil callback | y app.Notify without a target
+//	x same, nil callback | y app.Notify without a target.  The route string of an X/x/y item is noRoutes[tag % len] (@query / @kick: app.QuerySession / app.Kick): unknown
+//	service types and malformed routes (two parts, four parts, empty, empty service type) alternate
 //	R, F and X may be followed by "(" items ")" : what the callback does when it runs.
 //	P (inside a callback script only): the callback panics — but only when it runs as part of a timeout
 //	completion (directly or nested through an F callback): that panic is recovered by timer.Mgr; a panic
@@ -120,6 +133,23 @@ func parseActs(s string, i *int) []*act {
 		out = append(out, a)
 	}
 	return out
+}
+
+// noRoutes: route strings for which node-level routing finds no target — a well-formed route to an unknown service
+// type, and routes that are not serviceType.registry.method at all (SplitClientRoute yields an empty service type)
+// "@query" / "@kick": app.QuerySession / app.Kick for a front service nobody knows (same shape: ErrorNoService through the callback)
+var noRoutes = []string{"nosuch.remote.hello", "nosuch.entry", "", "a.b.c.d", "@query", "nosuch", ".remote.hello", "peer.remote.hello.x", "@kick", "nosuch..", "peer"}
+
+// nodeRequest: the node-level request API selected by the route string
+func nodeRequest(n *ns.NodeService, route string, k int, msg any, cb func(error, any)) {
+	switch route {
+	case "@query":
+		app.QuerySession(n, "nosuch-front-1", uint32(k), cb)
+	case "@kick":
+		app.Kick(n, "nosuch-front-1", uint32(k), cb)
+	default:
+		app.Request(n, route, "", msg, cb)
+	}
 }
 
 type plain struct{ X int } // not a proto.Message: remote.Serialize fails
@@ -202,6 +232,7 @@ type caseCtx struct {
 	w        *world
 	mu       sync.Mutex // bookkeeping below (a mutated implementation may call back from a foreign goroutine)
 	dead     bool
+	stopped  bool // the actor was stopped by the `stop` op
 	svc      *reqSvc
 	svc0     *reqSvc // the incarnation the case started with
 	pid      *actor.PID
@@ -216,6 +247,7 @@ type caseCtx struct {
 	order    []string
 	pans     []string
 	inTO     int            // >0 while a timeout callback is on the stack
+	noRoute  *string        // route override of the current top-level `noroute` op
 	reported map[int32]bool // nil-callback ids whose removal has been put into an order annotation
 	sent     []string
 	recv     map[int]*messages.ServiceRequest
@@ -323,16 +355,20 @@ func (c *caseCtx) issueVia(a *act, route string, via string) {
 	if a.kind == 'F' || a.kind == 'f' || a.kind == 'n' {
 		msg = plain{k}
 	}
+	nr := noRoutes[k%len(noRoutes)]
+	if c.noRoute != nil {
+		nr, c.noRoute = *c.noRoute, nil
+	}
 	switch a.kind {
 	case 'X':
 		f := c.mkcb(k, a.sub)
-		app.Request(c.svc.NodeService, "nosuch.remote.hello", "", msg, func(e error, r any) { f(e, r) })
+		nodeRequest(c.svc.NodeService, nr, k, msg, func(e error, r any) { f(e, r) })
 		return
 	case 'x':
-		app.Request(c.svc.NodeService, "nosuch.remote.hello", "", msg, nil)
+		nodeRequest(c.svc.NodeService, nr, k, msg, nil)
 		return
 	case 'y':
-		app.Notify(c.svc.NodeService, "nosuch.remote.hello", "", msg)
+		app.Notify(c.svc.NodeService, nr, "", msg)
 		return
 	}
 	if via == "api" {
@@ -774,12 +810,35 @@ func (w *world) exec(op string) (string, string) {
 		}
 		c.onSvc(func() { c.issueVia(&act{kind: kind}, "remote.hello", peerName(pn)) })
 		return op, c.observe("ok")
+	case "stop":
+		c.stopped = true
+		w.sys.Root.Stop(c.pid)
+		synctest.Wait()
+		return op, c.observe("ok")
 	case "noroute":
 		kind := byte('x')
 		if hx.KVInt(ws, "cb") == 1 {
 			kind = 'X'
 		}
-		c.onSvc(func() { c.issue(&act{kind: kind}, "") })
+		var ovr *string
+		if v, ok := hx.KV(ws, "route"); ok {
+			ovr = &v
+		}
+		c.onSvc(func() { c.noRoute = ovr; c.issue(&act{kind: kind}, ""); c.noRoute = nil })
+		return op, c.observe("ok")
+	case "burst":
+		s, _ := hx.KV(ws, "s")
+		i := 0
+		acts := parseActs(s, &i)
+		n := hx.KVInt(ws, "n")
+		if len(acts) != 1 || acts[0].kind == 'P' || n < 1 || n > 300 {
+			return op, "bad-op"
+		}
+		c.onSvc(func() {
+			for j := 0; j < n; j++ {
+				c.issue(acts[0], "a.b")
+			}
+		})
 		return op, c.observe("ok")
 	case "deliver":
 		if _, ok := hx.KV(ws, "k"); !ok {
@@ -1063,6 +1122,13 @@ func (g *gen) wval() int {
 
 func (g *gen) genCase(run func(string)) {
 	h, r := g.h, g.h.R
+	if r.Intn(40) == 0 {
+		// a completion callback panics under handleResponse with requests outstanding: supervisor restart (the whole case)
+		h.Count("case.restart")
+		run("reset")
+		run(fmt.Sprintf("restart a=%d b=%d w=%d off=%d", 1+r.Intn(6), r.Intn(7), g.wval(), []int{1, 2, 500, 998, 999, 1 + r.Intn(999)}[r.Intn(6)]))
+		return
+	}
 	switch x := r.Intn(10); {
 	case x == 0:
 		h.Count("case.wrap")
@@ -1097,6 +1163,39 @@ func (g *gen) genCase(run func(string)) {
 		for j := 0; j < 1+r.Intn(4); j++ {
 			run("adv dt=" + strconv.Itoa(400+r.Intn(900)))
 		}
+	} else if r.Intn(12) == 0 {
+		// mass expiry: a whole batch (peer gone) falls due in the same scan — around 64 / 128 / 256 entries —, many of the
+		// timeout callbacks retry (issue requests re-entrantly); the retries are answered or expire one period later
+		h.Count("case.massexpiry")
+		total := []int{33, 63, 64, 65, 66, 100, 127, 128, 129, 200, 257, 40 + r.Intn(60)}[r.Intn(12)]
+		if r.Intn(3) == 0 {
+			run("req s=R") // an older survivor-to-be: due one scan earlier or kept, depending on the gap
+			run("adv dt=" + strconv.Itoa(1+r.Intn(2500)))
+		}
+		for left := total; left > 0; {
+			n := left
+			if r.Intn(2) == 0 {
+				n = 1 + r.Intn(left)
+			}
+			left -= n
+			sc := []string{"R(R)", "R(R)", "R(RN)", "R(r)", "R", "r", "R(F(R))", "R(X(R))", "R(R(R))", g.act(0)}[r.Intn(10)]
+			run(fmt.Sprintf("burst n=%d s=%s", n, sc))
+			if r.Intn(4) == 0 {
+				run("adv dt=" + strconv.Itoa(1+r.Intn(120)))
+			}
+		}
+		if r.Intn(3) == 0 {
+			run("req s=R(R)")
+		}
+		run("adv dt=" + strconv.Itoa(30001+r.Intn(1200)))
+		c := g.w.cur
+		for j := 0; j < 4 && c.nextTag > 0; j++ {
+			run(fmt.Sprintf("deliver k=%d kind=%s w=%d", r.Intn(c.nextTag), g.payloadKind(), g.wval()))
+		}
+		run("adv dt=" + strconv.Itoa(400+r.Intn(900)))
+		if r.Intn(2) == 0 {
+			run("adv dt=" + strconv.Itoa(30500+r.Intn(1200)))
+		}
 	} else if r.Intn(3) == 0 {
 		// burst: many requests outstanding at once, issued over a few ms
 		h.Count("case.burst")
@@ -1107,8 +1206,17 @@ func (g *gen) genCase(run func(string)) {
 			}
 		}
 	}
+	stopAt := -1
+	if r.Intn(12) == 0 {
+		// the actor is stopped somewhere in the case: what is pending must still time out, replies are dead letters
+		h.Count("case.stop")
+		stopAt = r.Intn(steps)
+	}
 	for i := 0; i < steps; i++ {
 		c := g.w.cur
+		if i == stopAt {
+			run("stop")
+		}
 		out := c.outstanding()
 		x := r.Intn(100)
 		switch {
@@ -1137,7 +1245,12 @@ func (g *gen) genCase(run func(string)) {
 				run("adv dt=" + strconv.Itoa(1+r.Intn(999)))
 			case y < 10:
 				h.Count("op.noroute")
-				run(fmt.Sprintf("noroute cb=%d", r.Intn(2)))
+				if r.Intn(2) == 0 {
+					h.Count("op.noroute.route")
+					run(fmt.Sprintf("noroute cb=%d route=%s", r.Intn(2), noRoutes[r.Intn(len(noRoutes))]))
+				} else {
+					run(fmt.Sprintf("noroute cb=%d", r.Intn(2)))
+				}
 			case y == 10 && r.Intn(3) == 0:
 				// > 9 services on one dispatcher, replies posted from foreign goroutines while it is busy
 				h.Count("op.crowd")
@@ -1267,9 +1380,14 @@ func countObs(h *hx.T, op, obs string) {
 			h.Count("seen.scan.panic-with-several-due")
 		}
 	}
+	if strings.HasPrefix(op, "adv") && strings.Count(cb, "timeout") >= 64 {
+		h.Count("seen.scan.timeouts>=64")
+	}
 	if p, _ := hx.KV(ws, "pend"); p != "" {
 		n := strings.Count(p, ",") + 1
 		switch {
+		case n >= 64:
+			h.Count("seen.pending>=64")
 		case n >= 30:
 			h.Count("seen.pending>=30")
 		case n >= 10:
